@@ -601,7 +601,10 @@ func (sw *SessionWindow) handleLateData(row types.Row) bool {
 	// not receive this event.
 	key := extractSessionCompositeKey(row.Data, sw.config.GroupByKeys)
 	if info, ok := sw.triggeredSessions[key]; ok && info.session.slot.Contains(row.Timestamp) {
-		// Append the late event before re-emitting so the update includes it.
+		// Append the late event before re-emitting so the update includes it. It carries the
+		// session's slot like every other row of the session (window_start/window_end of the
+		// re-delivered result are read from the rows).
+		row.Slot = info.session.slot
 		info.session.data = append(info.session.data, row)
 		sw.triggerLateUpdateLocked(info.session)
 		return true
